@@ -756,7 +756,7 @@ theorem build_eq (s : Spec) (hne : s.path ≠ []) (hclean : stripUnsafe s.path =
       List.map (fun h : Bytes × Bytes => packHeader h.1 h.2) (if c then [x] else []) = if c then [packHeader x.1 x.2] else [] := by
     intro c _ x; split <;> rfl
   by_cases hg : (upper s.method == lit "GET") = true
-  · simp [hg, hite, hite2]
+  · simp [hg, hite]
   · by_cases h1 : (s.bkind == 1) = true
     · simp [hg, h1, hite, hite2]
     · by_cases h2 : (s.bkind == 2) = true
